@@ -881,6 +881,8 @@ def run(tier, seed):
         "full (all stores, all cell kinds, conditional on Ok)": ["C19_clone", "C19_optimize", "C19_worklist_closed",
                                                                  "C19_children_first", "C19_reader_sound",
                                                                  "C19_reader_complete"],
+        "bounded (finite family, vm_compute; additional, success + preservation on all blocks of <= 4 cells over "
+        "number/pair/RegisterRoot/ValueRoot)": ["C19_optimize_succeeds_bounded_4"],
         "refuted (witness by vm_compute, finding C19-K1)": ["C19_K1_refuted"],
         "examples (non-vacuity)": ["C19_ex_optimize", "C19_ex_hyps", "C19_ex_retained", "C19_ex_clone"],
         "stated, not proved": ["C19_success_statement (the calls succeed on well-formed stores outside C19-K1)",
